@@ -479,6 +479,82 @@ def run(F, R, tier):
                     "the agent registers std::process::id() (a tgid) in skip_process_map", "skip pid origins: %s" % sorted(map(str, org)))
     R.floor("C06.R5", n5, 1, "update_skip_process_map call sites")
 
+    # ------------------------------------------------------------------ R7 roles of what user space writes into policy_map
+    R.rule("C06.R7", "policy_map entries written by the agent: key = (protected endpoint ip, its port), value = (proxy ip, listener port)")
+    from lib import roles
+
+    def classify(kind, name):
+        if kind == "const":
+            n = name.rsplit("::", 1)[-1]
+            if n in ("WIRE_SERVER_PORT", "IMDS_PORT", "GA_PLUGIN_PORT"):
+                return "DEST_PORT"
+            if n.endswith("_IP_NETWORK_BYTE_ORDER"):
+                return "DEST_IP"
+            if n == "PROXY_AGENT_IP":
+                return "LOCAL_IP"
+            if n == "PROXY_AGENT_PORT":
+                return "LOCAL_PORT"
+        if kind == "call":
+            if name.endswith(("string_to_ip", "to_string", "Deref::deref", "as_str")):
+                return "<through>"
+            if name.endswith("RedirectorSharedState::get_local_port"):
+                return "LOCAL_PORT"
+        if kind == "field" and name.endswith("self.local_port"):
+            return "LOCAL_PORT"
+        return None
+    Rl = roles.Roles(F, "azure_proxy_agent", classify)
+
+    def entry_call(B, operand, depth=6):
+        """the from_ipv4 call term(s) an [u32;6] operand was built by (through to_array / refs)"""
+        out = []
+        for o in B.origins(operand):
+            if o[0] == "call" and q.ends(o[1], "to_array") and depth > 0:
+                out += entry_call(B, B.blocks[o[2]]["term"]["args"][0], depth - 1)
+            elif o[0] == "call" and q.ends(o[1], "from_ipv4"):
+                out.append(B.blocks[o[2]]["term"])
+            else:
+                out.append(None)
+        return out
+    n7 = 0
+    for fid, fn in F.fns.items():
+        if fn["crate"] != "azure_proxy_agent" or "/redirector" not in fn["file"]:
+            continue
+        B = mir.Body(fn, F)
+        maps = set()
+        for bi, w, r, t in B.calls_named("aya::Ebpf::map_mut", "aya::Ebpf::map"):
+            maps |= {v for v in q.const_args(B, t, 1)} | {o[2] for o in B.origins(t["args"][1]) if o[0] == "const"}
+        if "policy_map" not in {str(m) for m in maps}:
+            continue
+        if len(maps) != 1:
+            R.fail("C06.R7", R.key("C06.R7", fid, "several-maps"), "%s:%s" % (fn["file"], fn["line"]), "function opens several maps %s: roles not attributable" % sorted(map(str, maps)))
+            continue
+        R.touched(fid)
+        for bi, w, r, t in B.calls_named("aya::maps::HashMap::insert", "aya::maps::HashMap::remove", "aya::maps::HashMap::get"):
+            op = q.base_name(w).rsplit("::", 1)[-1]
+            wants = [(1, ("DEST_IP", "DEST_PORT"), "key")] + ([(2, ("LOCAL_IP", "LOCAL_PORT"), "value")] if op == "insert" else [])
+            for ai, (rip, rport), what in wants:
+                n7 += 1
+                calls = entry_call(B, t["args"][ai])
+                ok = bool(calls) and all(c is not None for c in calls)
+                got = []
+                if ok:
+                    for c in calls:
+                        a, b_ = Rl.of(fid, c["args"][0]), Rl.of(fid, c["args"][1])
+                        got.append((sorted(a), sorted(b_)))
+                        if a != {rip} or b_ != {rport}:
+                            ok = False
+                R.check(ok, "C06.R7", R.key("C06.R7", fid, "%s-%s" % (op, what)), q.where(B, bi),
+                        "policy_map.%s %s = from_ipv4(%s, %s) for every caller" % (op, what, rip, rport),
+                        "policy_map.%s %s is built from (ip, port) roles %s; expected (%s, %s) - e.g. destination and listener port exchanged "
+                        "at a call site" % (op, what, got, rip, rport))
+    R.floor("C06.R7", n7, 3, "policy_map key/value operands with resolved roles (at least one insert key, insert value, remove key)")
+    # the listener and the redirect target are the same port constant
+    for name in ("redirector::Redirector::new", "proxy::proxy_server::ProxyServer::new"):
+        sites = Rl.sites(AP + name)
+        okp = bool(sites) and all(Rl.of(cid, t_["args"][0]) == {"LOCAL_PORT"} for cid, t_ in sites)
+        R.check(okp, "C06.R7", "C06.R7:%s:port" % name, "-", "%s receives constants::PROXY_AGENT_PORT at every call site (%d)" % (name, len(sites)),
+                "%s port roles: %s" % (name, [sorted(Rl.of(cid, t_["args"][0])) for cid, t_ in sites]))
+
     # ------------------------------------------------------------------ R4 byte order [T]
     if tier == "thorough":
         byte_order(F, R, E, fns, src)
